@@ -450,6 +450,8 @@ func fltKeyOf(e *fltExpr) (string, bool) {
 		return e.K, true
 	case "name":
 		return ".name", true
+	case "full":
+		return ".fullname", true
 	case "sub":
 		return "/" + e.K, true
 	case "unit", "unitre":
@@ -460,6 +462,8 @@ func fltKeyOf(e *fltExpr) (string, bool) {
 			return e.K, true
 		case "name":
 			return ".name", true
+		case "full":
+			return ".fullname", true
 		case "sub":
 			return "/" + e.K, true
 		}
@@ -802,8 +806,12 @@ func fltSameBits(a, b []bool) bool {
 	return true
 }
 
-func fltObserve(f *benchproc.Filter, pristine *benchfmt.Result, viaMatchApply bool) fltObs {
-	var o fltObs
+func fltObserve(f *benchproc.Filter, pristine *benchfmt.Result, viaMatchApply bool) (o fltObs) {
+	defer func() {
+		if r := recover(); r != nil {
+			o.err = fmt.Sprint("panic: ", r)
+		}
+	}()
 	n := len(pristine.Values)
 	work := pristine.Clone()
 	m1, err := f.Match(work)
@@ -861,6 +869,9 @@ func fltWordClass(p int) string {
 
 // fltJudge compares an observation with the expected per-position bits, All and Any.
 func fltJudge(o *fltObs, exp []bool, all, any bool) (sig, detail string) {
+	if strings.HasPrefix(o.err, "panic") {
+		return "panic", o.err
+	}
 	if o.err != "" {
 		return "eval-error", o.err
 	}
@@ -1173,12 +1184,14 @@ type fltEvent struct {
 	Again bool     `json:"again"`
 	Kept  []int    `json:"kept"`
 	Ok    bool     `json:"ok"`
+	Err   string   `json:"err"`
 }
 
 type fltEvRes struct {
 	Cfg  map[string]string `json:"cfg"`
 	Name string            `json:"name"`
 	Sub  map[string]string `json:"sub"`
+	Full string            `json:"full"`
 	Meas []fltMeas         `json:"meas"`
 }
 
@@ -1196,6 +1209,7 @@ var fltRecSubVals = []string{"4k", "1M", "8", "16", "fast", "a=b", "x"}
 var fltRecRegexps = map[string][]string{
 	"unit": {"op$", "^B/", "^sec|^ns", "/GC", "^(?:ns/op|B/op)$", "sec", "^[a-z]+/", ".", "^$", "M", "p99", "^[^/]+$", "(?i)^b/", "^(?:sec|ns)/(?:op|GC)$", "s$"},
 	"cfg":  {"^lin", "64$", "a", "^(?:linux|darwin)$", "^[a-z]+$", "^v1", ".", "^$", "x", "^A", "(?i)v1", " ", "^[^a-z]", "\\*|\\(", "^.{2,3}$"},
+	"full": {"Enc", "^[A-Z][a-z]+$", "size=", "-[0-9]+$", "/", ".", "^$", "^Copy", "=4k"},
 	"name": {"Enc", "^A+$", "^[A-Z][a-z]+$", "o", ".", "^$", "ov", "^(?:Copy|Move)$", "g$"},
 	"sub":  {"^[48]", "k|M", "M$", "=", "^$", ".", "1", "^[a-z]+$", "^(?:8|16)$"},
 }
@@ -1269,8 +1283,16 @@ func fltRecLeaf(rng *rand.Rand, hint *fltEvRes) *fltRecNode {
 		return re, fltLanguage(re, universe)
 	}
 	withEmpty := func(vals []string) []string { return append([]string{""}, vals...) }
-	switch k := rng.Intn(11); {
-	case k >= 10:
+	switch k := rng.Intn(12); {
+	case k == 11: // .fullname
+		universe := append([]string{hint.Full, hint.Full + "x", "Copy/size=4k"}, fltRecNames...)
+		if rng.Intn(3) == 0 {
+			re, lang := pickRe("full", universe)
+			return &fltRecNode{op: "leaf", text: ".fullname:" + fltRecReTok(re), model: &fltExpr{Op: "in", Kind: "full", Vs: lang}}
+		}
+		v := like(hint.Full, universe[rng.Intn(len(universe))])
+		return &fltRecNode{op: "leaf", text: ".fullname:" + fltRecWord(rng, v, true), model: &fltExpr{Op: "full", V: v}}
+	case k == 10:
 		return &fltRecNode{op: "true", text: "*", model: &fltExpr{Op: "true"}}
 	case k < 4: // .unit literal / regexp / list
 		switch rng.Intn(3) {
@@ -1433,6 +1455,7 @@ func fltRecResult(rng *rand.Rand) (*benchfmt.Result, fltEvRes, bool) {
 		full += "/" + k + "=" + v
 	}
 	full += suffix
+	ev.Full = full
 	// units: few kinds per result so that terms hit several positions
 	kinds := make([]fltMeas, 2+rng.Intn(4))
 	for i := range kinds {
@@ -1525,7 +1548,11 @@ func fltRecord(args []string) error {
 			var pp benchproc.ProjectionParser
 			var ps string
 			var in *fltExpr
-			switch rng.Intn(3) {
+			switch rng.Intn(4) {
+			case 3: // .fullname alone in its parser: nothing is excluded from it
+				a, b := fltRecNames[rng.Intn(len(fltRecNames))], "Copy/size=4k"
+				ps = ".fullname@(" + fltQuote(a) + " " + fltQuote(b) + ")"
+				in = &fltExpr{Op: "in", Kind: "full", Vs: []string{a, b}}
 			case 0:
 				k := fltRecCfgKeys[rng.Intn(len(fltRecCfgKeys))]
 				a, b := fltRecCfgVals[rng.Intn(len(fltRecCfgVals))], fltRecCfgVals[rng.Intn(len(fltRecCfgVals))]
@@ -1549,12 +1576,12 @@ func fltRecord(args []string) error {
 			projections++
 		}
 		obs := fltObserve(f, res, rng.Intn(2) == 0)
-		if obs.err != "" {
-			return fmt.Errorf("evaluation error: %s", obs.err)
-		}
 		model.normalise()
+		if obs.bits == nil {
+			obs.bits = []bool{}
+		}
 		ev := fltEvent{Ev: "eval", T: t, Q: q, Expr: model, Res: evres, Bits: obs.bits, All: obs.all, Any: obs.any,
-			Outer: obs.outer, Pure: obs.pure && obs.hdr, Again: obs.again, Kept: []int{}, Ok: obs.ok}
+			Outer: obs.outer, Pure: obs.pure && obs.hdr, Again: obs.again, Kept: []int{}, Ok: obs.ok, Err: obs.err}
 		for _, p := range obs.kept {
 			ev.Kept = append(ev.Kept, p+1) // ids are 1-based; -1 (foreign measurement) becomes 0
 		}
